@@ -138,6 +138,7 @@ func (g *Gen) varargShape(depth, d int) []Stmt {
 	for i := range params {
 		params[i] = g.fresh("p")
 	}
+	noNil := false
 	pe := make([]Expr, 0, 4)
 	for _, p := range params {
 		pe = append(pe, v(p))
@@ -150,6 +151,7 @@ func (g *Gen) varargShape(depth, d int) []Stmt {
 		body = []Stmt{&Local{Names: []string{"x1", "x2"}, Es: []Expr{&Varargs{}}}, emit(v("x1"), v("x2")), ret(&Varargs{})}
 		fi.RetsVA = true
 	case 2: // table from varargs, middle position truncation
+		noNil = true // #t of a table with holes has no unique value
 		body = []Stmt{local1("t", &Table{Items: []TItem{{Kind: 0, E: &Varargs{}}, {Kind: 0, E: num(99)}}}),
 			local1("u", &Table{Items: []TItem{{Kind: 0, E: num(98)}, {Kind: 0, E: &Varargs{}}}}),
 			emit(&Un{Op: "#", A: v("t")}, &Un{Op: "#", A: v("u")}), ret(&Paren{E: &Varargs{}})}
@@ -181,7 +183,7 @@ func (g *Gen) varargShape(depth, d int) []Stmt {
 		for j := range args {
 			args[j] = g.exprInt(1)
 		}
-		if k > 0 && g.R.Chance(25) {
+		if k > 0 && g.R.Chance(25) && !noNil {
 			args[k-1] = &Nil{}
 		}
 		c := &Call{F: v(name), Args: args}
